@@ -20,6 +20,7 @@ CONSTANTS Base, bdim, Fund, bsize,     \* bsize : Base -> prime vector (exactly 
           Pool,                        \* sequence of quantities
           Units,                       \* sequence of units (for q*u, q/u, in_unit)
           Scalars,                     \* sequence of plain numbers [m, k]
+          Uncs,                        \* sequence of non-negative uncertainties (rationals)
           Powers, Roots
 
 VARIABLES ev
@@ -113,6 +114,23 @@ Compare(i, j) == LET a == Pool[i] b == Pool[j] IN
   ev' = IF Dim(a.u) # Dim(b.u) THEN Ev("cmp", i, j, 0, "reject", DZero, FALSE, a.u, NoPhys, FALSE)
         ELSE Ev("cmp", i, j, IF PhLt(Phys(a), Phys(b)) THEN -1 ELSE IF PhEq(Phys(a), Phys(b)) THEN 0 ELSE 1,
                 "ok", Dim(a.u), FALSE, a.u, NoPhys, PhEq(Phys(a), Phys(b)))
+
+\* C12 for measurements: x == y exactly when y == x.  A measurement is Pool[i] +/- Uncs[s] (in Pool[i]'s unit).
+\* The spec classifies the relation of the two physical intervals (n): 0 disjoint, 1 touching, 2 partial overlap,
+\* 3 first nested in second, 4 second nested in first, 5 identical - the harness demands symmetry in every class.
+Lo(q, s) == [r |-> RSub(q.m, s), pv |-> USize(q.u)]
+Hi(q, s) == [r |-> RAdd(q.m, s), pv |-> USize(q.u)]
+PhLe(x, y) == PhLt(x, y) \/ PhEq(x, y)
+MeasPair(i, j, s, t) == LET a == Pool[i] b == Pool[j] sa == Uncs[s] sb == Uncs[t]
+                            al == Lo(a, sa) ah == Hi(a, sa) bl == Lo(b, sb) bh == Hi(b, sb) IN
+  /\ Dim(a.u) = Dim(b.u)
+  /\ ev' = Ev("meas", i, j,
+              IF PhLt(ah, bl) \/ PhLt(bh, al) THEN 0
+              ELSE IF PhEq(ah, bl) \/ PhEq(bh, al) THEN 1
+              ELSE IF PhEq(al, bl) /\ PhEq(ah, bh) THEN 5
+              ELSE IF PhLe(bl, al) /\ PhLe(ah, bh) THEN 3
+              ELSE IF PhLe(al, bl) /\ PhLe(bh, ah) THEN 4 ELSE 2,
+              "ok", Dim(a.u), FALSE, a.u, [r |-> sa, pv |-> sb], FALSE)
 
 (* ---- the statement's laws, checked on the model itself ---- *)
 \* C06 / C12 at the level of the spec: Phys is a homomorphism and the order is a total preorder on one dimension
